@@ -175,6 +175,30 @@ Theorem c16_save_slice_wf_len : forall t now vs, wf t ->
 Proof. exact save_slice_wf_len. Qed.
 Print Assumptions c16_save_slice_wf_len.
 
+(* ---- Create from map values with an OnConflict rule ------------------------------------------------------
+   one map with a key: no other row changes; a fresh key stores the map's row (named columns, the rest empty,
+   no tracked time filled in); a stored key gets exactly what the rule writes, RowsAffected says whether it
+   wrote.  Slices of maps are folds of this step (create_maps_run); what they leave is tied by the
+   correspondence and C16_Spec.spec_oc_maps evaluated on gorm's outputs: PARTIAL for slices. *)
+Theorem c16_create_map_rule : forall t now ru ks m, wf t -> r_id (map_rec m) <> 0 ->
+  let ex := map_rec m in
+  let r := create_map t now ru ks m in
+  res_err r = false /\ wf (res_tbl r)
+  /\ without (r_id ex) (res_tbl r) = without (r_id ex) t
+  /\ match lookup t (r_id ex) with
+     | None => lookup (res_tbl r) (r_id ex) = Some ex /\ res_ra r = 1
+     | Some old => lookup (res_tbl r) (r_id ex) = Some (moc_apply now ru ks ex old)
+                   /\ res_ra r = (if mrule_fires ru ks old then 1 else 0)
+     end.
+Proof. exact create_map_rule. Qed.
+Print Assumptions c16_create_map_rule.
+
+(* UpdateAll on a map: a data column takes the map's value exactly when the map (the call) names it *)
+Theorem c16_create_map_update_all_columns : forall now ks ex old c, In c [CName; CAge; CEmail; CDel] ->
+  get_col c (moc_apply now RAll ks ex old) = if named ks c then get_col c ex else get_col c old.
+Proof. exact moc_all_columns. Qed.
+Print Assumptions c16_create_map_update_all_columns.
+
 (* ---- the specification the checker evaluates on gorm's outputs holds of the model's own output ---- *)
 (* for every well-formed table, clock value, chain and finisher of the domain (type-correct values,
    key-value form alone, Attrs/Assign on data columns, conditions on key/data columns with positive
